@@ -151,11 +151,7 @@ def _analyse(tier, seed):
             raise c.ToolError(f"protobuf corpus unit {u.uid} did not build ({u.status}):\n{u.output[-2000:]}")
     cpath, cst, sp = cases_for(tier, seed, pss)
     cases = c.read_ndjson(cpath)
-    key = gencheck.file_hash(gen.gworker()) + "-" + gencheck.file_hash(cpath)
-    rp = os.path.join(c.OUT, "cache", f"pbresults-{tier}-{key}.json")
-    if os.path.exists(rp):
-        res = json.load(open(rp))
-    else:
+    if True:
         reqs = []
         for ci, cs in enumerate(cases):
             path = gen.find_type(punits, cs["sid"], cs["ty"])
@@ -174,9 +170,15 @@ def _analyse(tier, seed):
                     if not n:
                         break
                 reqs.append({"id": len(reqs), "ty": path, "op": "ld", "input": pre + cs["in"], "_k": f"{ci}|ld"})
-        out = gen.run_worker(reqs, tag="pb")
-        res = {r["_k"]: out.get(r["id"], {"ok": False, "err": "harness: no response", "tool_error": True}) for r in reqs}
-        json.dump(res, open(rp, "w"))
+        # responses are a function of (worker binary built from the working tree, requests): cached on exactly that
+        key = gencheck.file_hash(gen.gworker()) + "-" + hashlib.sha256(json.dumps(reqs).encode()).hexdigest()[:20]
+        rp = os.path.join(c.OUT, "cache", f"pbresults-{tier}-{key}.json")
+        if os.path.exists(rp):
+            res = json.load(open(rp))
+        else:
+            out = gen.run_worker(reqs, tag="pb")
+            res = {r["_k"]: out.get(r["id"], {"ok": False, "err": "harness: no response", "tool_error": True}) for r in reqs}
+            json.dump(res, open(rp, "w"))
     finds, jobs, meta = [], [], {}
     for k, r in res.items():
         ci, op = k.split("|")
